@@ -104,7 +104,23 @@ def scn_shutdown(ctx):
     if racing and "asyncio" not in layers:
         ths.append(spawn("racer", racer))
     sh = spawn("shutter", shutter)
+    sh2 = None
+    if p.get("second_shutter"):
+        # another thread calls shutdown() with the same arguments at the same time: still exactly
+        # one shutdown of the wrapped executor
+        def shutter2():
+            sched.point()
+            if cf:
+                ex.shutdown(wait, cancel_futures=True)
+            else:
+                ex.shutdown(wait)
+            ev.add("shutdown2_ret")
+        sh2 = spawn("shutter2", shutter2)
     sh.join(300)
+    if sh2 is not None:
+        sh2.join(300)
+        ctx.check("concurrent-shutdown-returns", bool(ev.of("shutdown2_ret")), "a second, concurrent shutdown() did not return")
+        ctx.reach("two-shutters")
     if not ctx.check("shutdown-returns", "ret" in t_sd, "shutdown(wait=%s) of %s did not return (busy=%s)" % (wait, "+".join(layers), busy)):
         return
     ctx.check("shutdown-returns-promptly", t_sd["ret"] <= t_sd["call"] + K * eps,
@@ -159,9 +175,9 @@ PAIRS = [["retry", "timeout"], ["timeout", "retry"], ["poll", "retry"], ["thrott
 
 ASSUMPTIONS = ["innermost executor is a recording delegate; busy state = queued / between retries (sleep 1000 s) / being polled (interval 1000 s) / delegate future RUNNING",
                "'returns' is asserted as: shutdown() returns within 64*eps of its call (nothing in these states legitimately delays it)"]
-BOUNDS_TEXT = {"quick": "9 single layers + 12 two-layer stacks, busy and idle, racing submitter, wait x cancel_futures; P<=1",
+BOUNDS_TEXT = {"quick": "9 single layers + 12 two-layer stacks, busy and idle, racing submitter, wait x cancel_futures; two concurrent shutdown() callers on 4 layers; P<=1",
                "thorough": "P<=2"}
-MUST_REACH = {"*": ["racer-refused", "racer-accepted", "join-checked"]}
+MUST_REACH = {"*": ["racer-refused", "racer-accepted", "join-checked", "two-shutters"]}
 BUDGET = {"quick": 120.0, "thorough": 600.0}
 
 
@@ -175,6 +191,8 @@ def plan(tier, seed):
             items.append(dict(scenario="shutdown", params=dict(layers=[s], busy=False, racing=False), bounds=dict(lpredict=True, P=2 if q else 3)))
         if not q:
             items.append(dict(scenario="shutdown", params=dict(layers=[s], busy=False), bounds=dict(lpredict=True, P=2)))
+    for s in (["map", "retry", "throttle", "cancel_on_shutdown"] if q else [x for x in SINGLES if x != "asyncio"]):
+        items.append(dict(scenario="shutdown", params=dict(layers=[s], busy=(s != "map"), racing=False, second_shutter=True), bounds=dict(lpredict=True, P=1 if q else 2)))
     for pr in PAIRS:
         items.append(dict(scenario="shutdown", params=dict(layers=pr, busy=True), bounds=dict(lpredict=True, P=0 if q else 1)))
     return items
